@@ -365,6 +365,25 @@ int process_start(pid_t *process,
 
     int redirect[] = { options.handle.in, options.handle.out,
                        options.handle.err };
+    bool moved[] = { false, false, false };
+
+    // If the parent has file descriptors 0, 1 or 2 closed, the handles we want
+    // to redirect to can themselves be numbered 0, 1 or 2. Installing an
+    // earlier stream with `dup2` would overwrite such a handle before it is
+    // installed itself so we first move them out of the way.
+    for (int i = 0; i < (int) ARRAY_SIZE(redirect); i++) {
+      if (redirect[i] != i && redirect[i] >= 0 &&
+          redirect[i] < (int) ARRAY_SIZE(redirect)) {
+        r = fcntl(redirect[i], F_DUPFD_CLOEXEC, (int) ARRAY_SIZE(redirect));
+        if (r < 0) {
+          r = -errno;
+          goto child;
+        }
+
+        redirect[i] = r;
+        moved[i] = true;
+      }
+    }
 
     for (int i = 0; i < (int) ARRAY_SIZE(redirect); i++) {
       // `i` corresponds to the standard stream we need to redirect.
@@ -378,9 +397,20 @@ int process_start(pid_t *process,
       // child process when we're inheriting the parent standard streams. If we
       // don't call `exec`, the caller is responsible for closing the redirect
       // and exit handles.
-      if (redirect[i] != i) {
+      if (moved[i]) {
+        // We made this copy ourselves so nobody else is going to close it.
+        redirect[i] = handle_destroy(redirect[i]);
+      } else if (redirect[i] != i) {
         // Make sure the pipe is closed when we call exec.
         r = handle_cloexec(redirect[i], true);
+        if (r < 0) {
+          goto child;
+        }
+      } else {
+        // The handle already is the standard stream. If it is one of our own
+        // pipes or files it has `FD_CLOEXEC` set which would close the
+        // standard stream when we call exec.
+        r = handle_cloexec(i, false);
         if (r < 0) {
           goto child;
         }
